@@ -630,6 +630,8 @@ var specials = []Case{
 	{Stream: "special", Label: "symbol tag of a do* body shadows the tag of an outer tagbody", Src: "(tagbody (do* ((i 0 (1+ i))) ((= i 2)) (vtr 1) (go tb) (vtr 2) tb (vtr 3)) (vtr 4) tb (vtr 5))"},
 	{Stream: "special", Label: "go to an integer tag of a prog body", Src: "(prog ((a 1)) (vtr 1) (go 10) (vtr 2) 10 (vtr 3))"},
 	{Stream: "special", Label: "backward go to an integer tag of a dolist body", Src: "(let ((n 0)) (dolist (v '(1 2)) (vtr 1) 10 (setq n (1+ n)) (vtr 2) (if (< n 2) (go 10)) (vtr 3)))"},
+	{Stream: "special", Label: "return-from re-entered by its own cleanup, closure called twice", Src: "(let ((f nil)) (setq f (lambda (k) (block b (unwind-protect (return-from b k) (vtr 1) (if (eql k 2) (funcall f 1)) (if (eql k 1) (funcall f 0)))))) (list (funcall f 2) (funcall f 2) (funcall f 1)))"},
+	{Stream: "special", Label: "one return-from form run by a closure in the protected form and in the cleanup", Src: "(defun c07-g (k) (block b (return-from b k)))\n(list (block a (unwind-protect (return-from a (c07-g 30)) (vtr (c07-g 10)))) (block a (unwind-protect (return-from a (c07-g 30)) (vtr (c07-g 10)))))"},
 	{Stream: "special", Label: "stream closed on return-from", Src: "(block a (let ((u 1)) (with-open-file (f1 \"c07-in.txt\" :direction :input) (vreg 1 f1) (vtr 1) (return-from a 5))) (vtr 2))"},
 }
 
